@@ -189,7 +189,7 @@ def run(ctx):
 
     # ------------------------------------------------ watcher cannot die of an exception; abort table
     E = Escape(P, cg)
-    esc = E.from_root(run_f, classes={"text", "absent", "explicit", "shape", "assert", "strpos"})
+    esc = E.from_root(run_f, classes={"text", "absent", "explicit", "shape", "assert", "strpos", "fs"})
     esc = [(s, c) for s, c in esc if not (s.fn.pq == "Oomd::Stats::Stats")]
     ctx.check(not esc, "watcher-cannot-throw", "E-ESCAPE", run_f.loc(), "no throw site escapes FsDropInService::run",
               "an exception can escape the watcher thread (std::terminate): " + "; ".join("%s at %s" % (s.what, s.loc()) for s, _ in esc[:3]),
